@@ -161,8 +161,36 @@ def run(prog, tier, extra=None):
                         return True
         return False
 
+    def closure_reads_burnfee(e):
+        for x in walk(e):
+            if x[0] == "agg" and x[1][0] == "closure":
+                cb = prog.bodies.get(x[1][1])
+                if cb is None:
+                    continue
+                cch = Chaser(cb)
+                for blk in cb.blocks:
+                    for st in blk["s"]:
+                        if st[0] == "=" and has_field(cch.rvalue(st[2], 0), "block::Block", "burnfee"):
+                            return True
+        return False
+
+    def is_bf_of(e, param):
+        """the cumulative burn fee of the chain segment `param`: an accumulator fed in a loop over it, or `iter().map(..burnfee..).sum()`"""
+        x = strip(e)
+        if x[0] == "local":
+            if accumulates_from(x[1], param):
+                return True
+            dfs = lc.defs(x[1])
+            if len(dfs) == 1 and dfs[0][0] == "call":
+                x = ("call", dfs[0][2].get("res") or dfs[0][2].get("callee") or "", [chl.origin(a) for a in dfs[0][2]["args"]], dfs[0][1])
+            else:
+                return False
+        if x[0] in ("call", "via") and x[1].rsplit("::", 1)[-1] in ("sum", "fold"):
+            return any(y[0] == "param" and y[1] == param for y in walk(x)) and closure_reads_burnfee(x)
+        return False
+
     def bf_pair(a, b):
-        return a[0] == "local" and b[0] == "local" and accumulates_from(a[1], OLD) and accumulates_from(b[1], NEW)
+        return is_bf_of(a, OLD) and is_bf_of(b, NEW)
 
     def non_cumulative_updates(local):
         """assignments of a burn-fee accumulator that read Block.burnfee but do not add to the previous value"""
